@@ -46,7 +46,7 @@ def run(ck, fb):
             emp = any(a[0] == 'call' and (a[1] or '').endswith('is_empty') and a[2] is False for a in atoms)
             if e and ne and emp:
                 refusals.append(i)
-        ck.require(len(refusals) == 1, 'R12a', 'remove_instance:refuses-foreign-ephemeral', rm.where(),
+        ck.require(len(refusals) >= 1, 'R12a', 'remove_instance:refuses-foreign-ephemeral', rm.where(),
                    'Service::remove_instance no longer refuses to remove an ephemeral instance owned by a different client id')
         for i in refusals:
             for s in rmv:
@@ -61,7 +61,7 @@ def run(ck, fb):
     rc = ck.body(NA + 'remove_client_instance', 'R12b')
     if rc:
         cs = rc.calls(re.escape(NA + 'remove_instance') + '$')
-        ck.require(len(cs) == 1, 'R12b', 'remove_client_instance:calls-remove', rc.where(), 'disconnect does not go through remove_instance')
+        ck.require(len(cs) >= 1, 'R12b', 'remove_client_instance:calls-remove', rc.where(), 'disconnect does not go through remove_instance')
         for s in cs:
             a = util.agg_of(rc, s.args[3])
             t = Taint(rc, local_src=[2])
@@ -91,7 +91,7 @@ def run(ck, fb):
     if h:
         for arm in ('RemoveClient', 'RemoveClientFromCluster'):
             cs = [s for s in h.calls(re.escape(NA + 'remove_client_instance') + '$') if ('rnacos::naming::core::NamingCmd', arm) in util.variant_guards(h, s.bb)]
-            ck.require(len(cs) == 1, 'R12b', 'handle:%s' % arm, h.where(), 'NamingCmd::%s does not remove the client\'s instances' % arm)
+            ck.require(len(cs) >= 1, 'R12b', 'handle:%s' % arm, h.where(), 'NamingCmd::%s does not remove the client\'s instances' % arm)
     ck.rule('R12c', 'query filter truth table: closures of get_all_instances / select_one_instance == (enabled || !only_enable) && '
                     '(healthy || !only_healthy); filter_healthy_instances closure == healthy; get_all_instances iterates instances.values()')
     for fn in ('get_all_instances', 'select_one_instance'):
@@ -173,7 +173,7 @@ def run(ck, fb):
             t = Taint(b, local_src=[2])
             ck.require(len(g) == 1 and t.op_tainted(g[0].args[1]), 'R12f', '%s:lookup-by-key' % fn, b.where(), '%s does not look up the requested service key' % fn)
             gl = b.calls(re.escape(SV + 'get_instance_list') + '$')
-            ck.require(len(gl) == 1, 'R12f', '%s:reads-service' % fn, b.where(), '%s does not read the instances of the found service' % fn)
+            ck.require(len(gl) >= 1, 'R12f', '%s:reads-service' % fn, b.where(), '%s does not read the instances of the found service' % fn)
 
 
 def _closure_table(ck, fb, c, fn):
